@@ -115,7 +115,24 @@ func innermostFrame(stack string) string {
 	return "unknown"
 }
 
+func (c *c20) CaseTimeout(tier string) time.Duration { return 90 * time.Second }
+
 func (c *c20) CrashKey(tail string) (string, bool) {
+	if strings.Contains(tail, "CASE-WATCHDOG ") {
+		// the case did not end: name the data-server function a goroutine is busy in
+		busy := "?"
+		for _, blk := range strings.Split(tail, "\n\n") {
+			head := blk
+			if i := strings.IndexByte(head, '\n'); i > 0 {
+				head = head[:i]
+			}
+			if (strings.Contains(head, "[running]") || strings.Contains(head, "[runnable]")) && strings.Contains(blk, "github.com/sdcio/data-server/") {
+				busy = innermostFrame(blk)
+				break
+			}
+		}
+		return "C20/hang/case-does-not-end@" + busy, true
+	}
 	if !strings.Contains(tail, "panic:") && !strings.Contains(tail, "fatal error:") {
 		return "", false
 	}
@@ -234,7 +251,7 @@ func c20Tv(rng *core.Rng) (*sdcpb.TypedValue, string) {
 	case 6:
 		return &sdcpb.TypedValue{Value: &sdcpb.TypedValue_DoubleVal{DoubleVal: -2.25}}, "double"
 	case 7:
-		d := &sdcpb.Decimal64{Digits: []int64{0, 15, -150, 1<<63 - 1}[rng.Intn(4)], Precision: []uint32{0, 1, 2, 18, 40}[rng.Intn(5)]}
+		d := &sdcpb.Decimal64{Digits: []int64{0, 15, -150, 1<<63 - 1}[rng.Intn(4)], Precision: []uint32{0, 1, 2, 18, 40, 1 << 16, 1<<32 - 1}[rng.Intn(7)]}
 		return &sdcpb.TypedValue{Value: &sdcpb.TypedValue_DecimalVal{DecimalVal: d}}, fmt.Sprintf("decimal:%d/%d", d.Digits, d.Precision)
 	case 8:
 		arr := &sdcpb.ScalarArray{}
@@ -529,6 +546,10 @@ func (c *c20) RunCase(w *core.Worker, idx int, seed uint64, res *core.CaseResult
 				if rng.Chance(1, 8) {
 					pb = mutatePath(rng, p)
 				}
+				if rng.Chance(1, 16) {
+					pb = nil // an update whose path field is absent on the wire
+					desc = "path=<absent> json=" + show
+				}
 				doSet(desc, &sdcpb.TransactionSetRequest{DatastoreName: ds.Name, TransactionId: fmt.Sprintf("t%d", txn),
 					Intents: []*sdcpb.TransactionIntent{{Intent: "oa", Priority: 10, Update: []*sdcpb.Update{{Path: pb, Value: tv}}}}})
 			}
@@ -536,6 +557,9 @@ func (c *c20) RunCase(w *core.Worker, idx int, seed uint64, res *core.CaseResult
 			for i := 0; i < n; i++ {
 				p := c20SchemaPaths[rng.Intn(len(c20SchemaPaths))]
 				pb := mutatePath(rng, p)
+				if rng.Chance(1, 16) {
+					pb = nil // path field absent on the wire
+				}
 				tv, tvd := c20Tv(rng)
 				if rng.Chance(1, 2) {
 					tv, tvd = strTv("5"), "string:5"
@@ -585,7 +609,7 @@ func (c *c20) RunCase(w *core.Worker, idx int, seed uint64, res *core.CaseResult
 					r.call("Server.GetData", desc, func() error { return srv.GetData(req, gs) })
 					gs.Cancel()
 				case 2:
-					req := roundTrip(&sdcpb.SubscribeRequest{Name: name, Subscription: []*sdcpb.Subscription{{Path: []*sdcpb.Path{p}, DataType: sdcpb.DataType(rng.Intn(4)), SampleInterval: uint64(rng.Intn(3)) * uint64(time.Millisecond)}}})
+					req := roundTrip(&sdcpb.SubscribeRequest{Name: name, Subscription: []*sdcpb.Subscription{{Path: []*sdcpb.Path{p}, DataType: sdcpb.DataType(rng.Intn(4)), SampleInterval: []uint64{0, uint64(time.Millisecond), 2 * uint64(time.Millisecond), 1 << 63, 1<<64 - 1, 1}[rng.Intn(6)]}}})
 					if rng.Chance(1, 5) {
 						req.Subscription = append(req.Subscription, &sdcpb.Subscription{})
 					}
@@ -739,7 +763,7 @@ func (c *c20) RunCase(w *core.Worker, idx int, seed uint64, res *core.CaseResult
 		}
 		frag := []string{`<if><mtu>1</mtu></if>`, `<if><name/></if>`, `<if/>`, `<nope>1</nope>`, `<sys><nope/></sys>`, `<sys>text<descr>a</descr></sys>`, `<descr>orphan</descr>`, `<types><i8>999</i8></types>`, `<types><d2>x</d2></types>`,
 			`<types><u64>-1</u64></types>`, `<types><bool>maybe</bool></types>`, `<types><idref>bogus</idref></types>`, `<types><ll-str/></types>`, `<sys><dns/></sys>`, `<tri><a>k</a></tri>`, `<peer><name>n</name></peer>`,
-			`<cons><mlist><req>r</req></mlist></cons>`, `<if><name>e1</name><unit><vlan>1</vlan></unit></if>`, `<if xmlns:x="y" x:attr="1"><name>e1</name></if>`, `<stats><rx>1</rx></stats>`, `<verif-barrier>x</verif-barrier>`, `<types><emp>text</emp></types>`, `<types><en>nope</en></types>`, `<types><un1/></types>`}
+			`<cons><mlist><req>r</req></mlist></cons>`, `<if><name>e1</name><unit><vlan>1</vlan></unit></if>`, `<if xmlns:x="y" x:attr="1"><name>e1</name></if>`, `<stats><rx>1</rx></stats>`, `<verif-barrier>x</verif-barrier>`, `<types><emp>text</emp></types>`, `<tags>a</tags><tags>b</tags>`, `<tags/>`, `<types><en>nope</en></types>`, `<types><un1/></types>`}
 		for i := 0; i < n; i++ {
 			var doc string
 			switch rng.Intn(6) {
